@@ -470,7 +470,8 @@ class ExprMixin(CallMixin):
             v = self.eval(e.value, loc, module)
             kk = dict_key(k)
             if kk is None or self.loop_ctx:
-                d.opaque_keys.append((k, v))
+                if not any(repr(k) == repr(k2) and repr(v) == repr(v2) for k2, v2 in d.opaque_keys):
+                    d.opaque_keys.append((k, v))
             else:
                 d.items[kk] = v
 
